@@ -483,3 +483,42 @@ def _index(p):
             return numpoly.monomial(q["start"], **kw)
         raise ValueError(fn)
     return run
+
+
+# ------------------------------------------------ C02 evaluation / substitution
+@action("call")
+def _call(p):
+    import numpoly
+    layout = p["layout"]        # {"pos": [arg position or 0 for None, ...], "kw": [[name string, arg position], ...]}
+    sp = p.get("spelling", "call")
+
+    def run(poly, *vals):
+        pos = [None if a == 0 else vals[a - 2] for a in layout["pos"]]
+        kw = {name: vals[a - 2] for name, a in layout["kw"]}
+        if sp == "function":
+            return numpoly.call(poly, tuple(pos), kw)
+        return poly(*pos, **kw)
+    return run
+
+
+# --------------------------------------------- C06 derivative, gradient, Hessian
+@action("deriv")
+def _deriv(p):
+    import numpoly
+    fn = p["fn"]
+
+    def run(poly):
+        if fn == "gradient":
+            return numpoly.gradient(poly)
+        if fn == "hessian":
+            return numpoly.hessian(poly)
+        dv = []
+        for d in p["designators"]:
+            if d["as"] == "index":
+                dv.append(int(d["v"]))
+            elif d["as"] == "name":
+                dv.append(str(d["v"]))
+            else:
+                dv.append(numpoly.symbols(str(d["v"])))
+        return numpoly.derivative(poly, *dv)
+    return run
